@@ -104,11 +104,15 @@ pub struct Elem {
     /// print minOccurs/maxOccurs even when they have their default value 1
     #[serde(default)]
     pub explicit: bool,
+    /// prefix declarations on the local element itself (the .NET/WCF style
+    /// `<xs:element name="x" type="q1:T" xmlns:q1="…"/>`)
+    #[serde(default)]
+    pub xmlns: Vec<(String, String)>,
 }
 
 impl Elem {
     pub fn new(name: &str, ty: TypeRef) -> Elem {
-        Elem { name: name.into(), ty, min: 1, max: Max::N(1), explicit: false }
+        Elem { name: name.into(), ty, min: 1, max: Max::N(1), explicit: false, xmlns: vec![] }
     }
     pub fn occ(mut self, min: u32, max: Max) -> Elem {
         self.min = min;
@@ -122,6 +126,9 @@ pub struct ElemRef {
     pub target: QName,
     pub min: u32,
     pub max: Max,
+    /// prefix declarations on the referring element itself
+    #[serde(default)]
+    pub xmlns: Vec<(String, String)>,
 }
 
 #[derive(Clone, Debug, Serialize, Deserialize, PartialEq, Eq, Hash)]
@@ -137,11 +144,15 @@ pub struct Seq {
     pub min: u32,
     pub max: Max,
     pub items: Vec<Particle>,
+    /// an <xs:annotation> as the first child of the <xs:sequence> (and, for a derived type, another
+    /// one as the first child of <xs:extension>)
+    #[serde(default)]
+    pub doc: Option<String>,
 }
 
 impl Seq {
     pub fn of(items: Vec<Particle>) -> Seq {
-        Seq { min: 1, max: Max::N(1), items }
+        Seq { min: 1, max: Max::N(1), items, doc: None }
     }
 }
 
@@ -419,10 +430,12 @@ fn print_particle(o: &mut String, p: &Particle, sc: &Scope, ind: usize) {
     match p {
         Particle::Elem(e) => {
             let occ = if e.explicit { format!(" minOccurs=\"{}\" maxOccurs=\"{}\"", e.min, e.max.label()) } else { occ_attrs(e.min, e.max) };
-            let _ = writeln!(o, "{pad}<xs:element name=\"{}\" type=\"{}\"{occ}/>", esc(&e.name), sc.tref(&e.ty));
+            let sc = sc.push(&e.xmlns);
+            let _ = writeln!(o, "{pad}<xs:element name=\"{}\" type=\"{}\"{occ}{}/>", esc(&e.name), sc.tref(&e.ty), xmlns_attrs(&e.xmlns));
         }
         Particle::Ref(r) => {
-            let _ = writeln!(o, "{pad}<xs:element ref=\"{}\"{}/>", sc.qname(&r.target), occ_attrs(r.min, r.max));
+            let sc = sc.push(&r.xmlns);
+            let _ = writeln!(o, "{pad}<xs:element ref=\"{}\"{}{}/>", sc.qname(&r.target), occ_attrs(r.min, r.max), xmlns_attrs(&r.xmlns));
         }
         Particle::Seq(s) => print_seq(o, s, sc, ind),
         Particle::Choice(items) => {
@@ -438,6 +451,9 @@ fn print_particle(o: &mut String, p: &Particle, sc: &Scope, ind: usize) {
 fn print_seq(o: &mut String, s: &Seq, sc: &Scope, ind: usize) {
     let pad = " ".repeat(ind);
     let _ = writeln!(o, "{pad}<xs:sequence{}>", occ_attrs(s.min, s.max));
+    if s.doc.is_some() {
+        o.push_str(&doc_xml(&s.doc, &" ".repeat(ind + 2)));
+    }
     for i in &s.items {
         print_particle(o, i, sc, ind + 2);
     }
@@ -475,6 +491,9 @@ fn print_content(o: &mut String, base: &Option<QName>, seq: &Option<Seq>, attrs:
             let _ = writeln!(o, "{pad}<xs:complexContent>");
             let _ = writeln!(o, "{pad}  <xs:extension base=\"{}\">", sc.qname(b));
             if let Some(s) = seq {
+                if s.doc.is_some() {
+                    o.push_str(&doc_xml(&s.doc, &" ".repeat(ind + 4)));
+                }
                 print_seq(o, s, sc, ind + 4);
             }
             print_attrs(o, attrs, sc, ind + 4);
